@@ -26,7 +26,7 @@ LITERAL_TOKEN_FINDING = 'py-literal-with-attribute-token-under-header'
 KEYWORDS = ['select', 'SELECT', 'update', 'where', 'WHERE', 'join', 'inner join', 'left join', 'LEFT OUTER JOIN', 'strict left join', 'order by', 'ORDER BY a1 DESC', 'group by', 'limit', 'LIMIT 1',
             'except', 'with', 'with (header)', 'WITH (noheader)', 'from', 'from a', 'top 1', 'TOP', 'distinct', 'distinct count', 'as', ' as x', ' AS y', 'on', 'and', 'set', 'asc', 'desc', ' DESC']
 META = ['*', 'a.*', 'b.*', '=', '==', ' = ', '#', '# c', ',', ', ', ';', 'x;', 'a1', 'b2', 'a[1]', 'a10', 'NR', 'NF', 'count(*)', 'COUNT(*)', '(', ')', '[', ']]', '"', "'", '\\', '\\\\', "\\'", '\\"', 'a\tb', '\t', 'a\\nb',
-        ' ', '  ', '', '___RBQL', "it's", 'say "hi"', 'a.name', 'b.x y', 'where a1 == "x"', 'select * from a', '=a2', 'a2=', 'é€', 'UNNEST(', 'like(']
+        ' ', '  ', '', '___RBQL', '$$', 'a$&b', 'US$', '$1', "$'", '$`', '5$', "it's", 'say "hi"', 'a.name', 'b.x y', 'where a1 == "x"', 'select * from a', '=a2', 'a2=', 'é€', 'UNNEST(', 'like(']
 
 
 def literal(rng):
@@ -134,9 +134,54 @@ def plan(tier, seed):
     return [{'k': k, 'i': i, 'n': CASES[tier] // k} for i in range(k)]
 
 
+def flush_js(res, node, batch):
+    reqs = []
+    for case, texts in batch:
+        for t in texts:
+            reqs.append({'query': t, 'input': case['A'], 'join': case['B'], 'input_cols': case['a_names'], 'join_cols': case['b_names']})
+    outs = node.call({'op': 'query_batch', 'cases': reqs})['results']
+    k = 0
+    for case, texts in batch:
+        obs = []
+        for t in texts:
+            o = outs[k]
+            k += 1
+            obs.append((o['out'], o['header'], sorted(o['warnings']), common.js_error_class(o['error'])))
+        res.evaluations += len(texts)
+        res.count('js_respelling_runs', len(texts) - 1)
+        # the canonical JS spelling against the reference (literals must reach the output verbatim on the JS port too)
+        ref = refsem.run(case['q'], case['A'], case['B'], case['a_names'], case['b_names'])
+        o0 = outs[k - len(texts)]
+        casej = dict(case, query_text_js=texts[0])
+        if not (obs[0][3] == 'parsing' and case['a_names'] is not None and any(has_ab_token(l[1]) for l in literals_of(case['q']))):
+            res.count('js_reference_comparisons')
+            common.compare(res, PROPERTY, 'js', casej, common.js_got(o0), ref, True, common.classify_known_js)
+        for t, ob in zip(texts[1:], obs[1:]):
+            if ob != obs[0]:
+                if obs[0][3] == 'parsing' and case['a_names'] is not None and any(has_ab_token(l[1]) for l in literals_of(case['q'])):
+                    continue
+                res.violation('js:spelling-changes-result:' + common.feature_sig(case['q']), '[js] two spellings of one query differ:\n  canonical %r -> %r\n  respelled %r -> %r' % (texts[0], obs[0], t, ob), dict(case, respelled=t, engine='js'))
+    del batch[:]
+
+
 def run_shard(spec, res):
     ns = env.import_rbql()
     rng = random.Random(spec['seed'] * 2750159 + spec['i'])
+    from ..js import bridge
+    js = bridge.Node.start()
+    if js is None:
+        res.notes.append('js_leg: unavailable (no node)')
+    js_batch = []
+    try:
+        _run_cases(ns, res, spec, rng, js, js_batch)
+        if js is not None and js_batch:
+            flush_js(res, js, js_batch)
+    finally:
+        if js is not None:
+            js.close()
+
+
+def _run_cases(ns, res, spec, rng, js, js_batch):
     for n in range(spec['n']):
         case = gen_case(rng, n)
         ctx = qast.Ctx(case['a_names'], case['b_names'])
@@ -183,6 +228,17 @@ def run_shard(spec, res):
                 res.violation('py:spelling-changes-%s:%s' % (diff, common.feature_sig(q)), '[py] two spellings of one query differ in %s:\n  canonical %r -> rows %r header %r error %r (%s)\n  respelled %r -> rows %r header %r error %r (%s)' % (
                     diff, canonical, o0.rows, o0.header, o0.error, (o0.error_msg or '')[:100], text, oi.rows, oi.header, oi.error, (oi.error_msg or '')[:100]),
                     dict(case, respelled=text, engine='py'))
+        # JS twin: the same metamorphic relation on the JS engine for language-neutral queries
+        if js is not None and common.neutral_query(q) and not any(len(l) > 3 for l in lits):
+            ctxj = qast.Ctx(case['a_names'], case['b_names'])
+            texts = [qast.render(q, ctxj, 'js')]
+            for _j in range(3):
+                t = qast.respell(q, ctxj, rng, 'js')
+                if t not in texts:
+                    texts.append(t)
+            js_batch.append((case, texts))
+            if len(js_batch) >= 150:
+                flush_js(res, js, js_batch)
         if n % 299 == 0:
             res.sample({'canonical': canonical, 'respellings': sorted(seen_texts - {canonical})[:3], 'rows': o0.rows[:3], 'literals': [l[1] for l in lits][:6]})
 
@@ -190,7 +246,7 @@ def run_shard(spec, res):
 def summarize(tier, seed, m):
     return {
         'rule': 'structured queries from the C01 / C02 / C04 / C05 generators plus literal-heavy selects (1-13 literals, so that placeholder numbers reach two digits), with string literals drawn from every RBQL keyword and metacharacter (%d keyword texts, %d metacharacter texts, both quote styles, escaped quotes, backslashes, escaped and raw tabs) injected into select items, WHERE operands, UPDATE right-hand sides and ORDER BY keys; each rendered canonically and in %d random compositions of the spelling transformations; all spellings executed through rbql.query and compared with each other exactly and with the reference. distinct_nontrivial = distinct canonical (query, tables) with a non-empty result.' % (len(KEYWORDS), len(META), RESPELLINGS[tier]),
-        'required': ['canonical_runs', 'respelling_runs', 'literals_checked', 'queries_with_11_or_more_literals'],
+        'required': ['canonical_runs', 'respelling_runs', 'literals_checked', 'queries_with_11_or_more_literals', 'js_respelling_runs'],
         'assumptions': ['literals containing the engine placeholder ___RBQL_STRING_LITERAL<n>___, triple-quoted literals, f-strings and WITH(...) anywhere but last are not generated (documented limits)'],
     }
 
